@@ -150,6 +150,43 @@ def main():
     km = re.search(r'key\.to_string\(\)\s*==\s*"([^"]+)"', eu)
     if not km:
         raise SystemExit("extract_tables: cubic key not found")
+    # the skeleton of the cascade: kinds of the exits of `is_euclidean` in source order and the
+    # numeric constants of the helper calls (NOT the diagnostic texts: the property speaks of the
+    # verdict class only, a rewording must not change this file)
+    def nat_list(txt):
+        """`0, 0, 0` / `` / `0; 3` -> [0, 0, 0] / [] / [0, 0, 0]"""
+        txt = txt.strip()
+        if txt == "":
+            return []
+        rep = re.fullmatch(r"(\d+)\s*;\s*(\d+)", txt)
+        if rep:
+            return [int(rep.group(1))] * int(rep.group(2))
+        parts = [x.strip() for x in txt.split(",") if x.strip() != ""]
+        if not all(re.fullmatch(r"\d+", x) for x in parts):
+            raise SystemExit(f"extract_tables: cannot read the integer list [{txt}] in euclidicity.rs")
+        return [int(x) for x in parts]
+
+    ie = fn_body(eu, r"pub\s+fn\s+is_euclidean\s*<[^>]*>\s*\([^)]*\)\s*->\s*Euclidean\s*\{")
+    kinds = [("yes" if m.group(1) else "fail" if m.group(2) else "give_up")
+             for m in re.finditer(r"(Euclidean::Yes\b)|(\bfail\s*\()|(\bgive_up\s*\()", ie)]
+    if kinds.count("yes") < 1 or len(kinds) < 3:
+        raise SystemExit("extract_tables: exits of is_euclidean not found")
+    cnt = re.findall(r"bad_subgroup_count\s*\(\s*&fg\s*,\s*(\d+)\s*,\s*(\d+)\s*\)", ie)
+    sub = re.findall(r"bad_subgroup_invariants\s*\(\s*&fg\s*,\s*(\d+)\s*,\s*vec!\[([^\]]*)\]\s*\)", ie)
+    hom = re.findall(r"invars\s*!=\s*\[([^\]]*)\]", ie)
+    if len(cnt) != 1 or len(sub) != 1 or len(hom) != 1:
+        raise SystemExit("extract_tables: the subgroup tests / homology test of is_euclidean not found "
+                         f"(bad_subgroup_count x{len(cnt)}, bad_subgroup_invariants x{len(sub)}, invars != [..] x{len(hom)})")
+    casc_count = (int(cnt[0][0]), int(cnt[0][1]))
+    casc_sub = (int(sub[0][0]), nat_list(sub[0][1]))
+    casc_hom = nat_list(hom[0])
+    bcc = fn_body(eu, r"fn\s+bad_connected_components\s*\([^)]*\)\s*->\s*bool\s*\{")
+    comp_eq = re.findall(r"invars\s*==\s*\[([^\]]*)\]", bcc)
+    comp_sub = re.findall(r"bad_subgroup_invariants\s*\(\s*&fg\s*,\s*(\d+)\s*,\s*vec!\[([^\]]*)\]\s*\)", bcc)
+    if len(comp_eq) != 2 or len(comp_sub) != 2:
+        raise SystemExit("extract_tables: the component tests of bad_connected_components not found "
+                         f"(invars == [..] x{len(comp_eq)}, bad_subgroup_invariants x{len(comp_sub)})")
+    comp_tests = [(nat_list(e), int(i), nat_list(x)) for e, (i, x) in zip(comp_eq, comp_sub)]
     # the invariant table exactly as the Rust Lazy parses it
     inv = [t for t in data.split() if len(t) > 0 and not t.startswith("#")]
     if len(inv) < 200:
@@ -204,6 +241,20 @@ def main():
     L.append("")
     L.append("/-- canonical key of the cubic tiling compared in `is_euclidean` -/")
     L.append("def cubicKey : String := " + lean_str(km.group(1)))
+    def nl(xs):
+        return lean_list([str(x) for x in xs])
+    L.append("/-- kinds of the exits of `is_euclidean` in source order (`fail(..)` / `give_up(..)` / `Euclidean::Yes`);")
+    L.append("    the diagnostic texts are deliberately not extracted -/")
+    L.append("def cascadeKinds : List String := " + lean_list([lean_str(k) for k in kinds]))
+    L.append("/-- `bad_subgroup_count(&fg, index, expected)` in `is_euclidean` -/")
+    L.append(f"def cascadeCountArgs : Nat × Nat := ({casc_count[0]}, {casc_count[1]})")
+    L.append("/-- `bad_subgroup_invariants(&fg, index, expected)` in `is_euclidean` -/")
+    L.append(f"def cascadeSubgroupArgs : Nat × List Nat := ({casc_sub[0]}, {nl(casc_sub[1])})")
+    L.append("/-- `invars != [..]` in `is_euclidean` (the handle test) -/")
+    L.append("def cascadeHomology : List Nat := " + nl(casc_hom))
+    L.append("/-- `bad_connected_components`: (`invars == [..]`, index, expected of the `bad_subgroup_invariants` call) in source order -/")
+    L.append("def componentTests : List (List Nat × Nat × List Nat) := " +
+             lean_list([f"({nl(e)}, {i}, {nl(x)})" for e, i, x in comp_tests]))
     L.append("/-- `INVARIANTS` exactly as the Rust `Lazy` parses src/data/euclideanInvariants.data -/")
     L.append("def euclideanInvariants : List String := [")
     for k in range(0, len(inv), 4):
